@@ -303,6 +303,19 @@ func c08ForeignHistories(c *engine.Ctx) {
 						t.Outcome("view")
 						c08Containment(t, class, x, view)
 						vv, sv := reflect.ValueOf(view).Elem(), reflect.ValueOf(x).Elem()
+						// the view of a pointer IS the value: a write through it is seen by the original, and the other way round
+						if nv, ns := vv.FieldByName("Name"), sv.FieldByName("Name"); nv.IsValid() && ns.IsValid() {
+							w1 := ap.NaturalLanguageValues{{Ref: "-", Value: ap.Content("written through the view")}}
+							nv.Set(reflect.ValueOf(w1))
+							if !reflect.DeepEqual(ns.Interface(), w1) {
+								t.Fail(class+"|name|write-through-view-not-seen", "a write through the %s view of an application-defined pointer is not seen by the original", vv.Type().Name())
+							}
+							w2 := ap.NaturalLanguageValues{{Ref: "-", Value: ap.Content("written on the original")}}
+							ns.Set(reflect.ValueOf(w2))
+							if !reflect.DeepEqual(nv.Interface(), w2) {
+								t.Fail(class+"|name|write-to-original-not-seen", "a write on the original is not seen through the %s view", vv.Type().Name())
+							}
+						}
 						vIdx, sIdx := c08TermIndex(vv.Type()), c08TermIndex(sv.Type())
 						for term, vi := range vIdx {
 							if si, ok := sIdx[term]; ok && vv.Field(vi).Type() == sv.Field(si).Type() && !reflect.DeepEqual(vv.Field(vi).Interface(), sv.Field(si).Interface()) {
